@@ -78,7 +78,7 @@ def within(scn, u, d):
     return two
 
 
-def callbacks(scn, log, infl_kind="set"):
+def callbacks(scn, log, infl_kind="set", unit=RATE_UNIT):
     rules = {r["from"]: r for r in scn["rules"]}
 
     def rate_function(G, node, status, parameters):
@@ -87,7 +87,7 @@ def callbacks(scn, log, infl_kind="set"):
         if r is None:
             return 0
         k = sum(1 for v in within(scn, node, r["dist"]) if status[v] == r["cnt"])
-        return (r["base"] + r["coef"] * k) * RATE_UNIT if k >= r["thr"] else 0
+        return (r["base"] + r["coef"] * k) * unit if k >= r["thr"] else 0
 
     def transition_choice(G, node, status, parameters):
         log.append(("choice", node))
@@ -215,3 +215,56 @@ def run_scenario(task):
             problems.append({"kind": "arrays", "cls": cls + ("|return_statuses-subset" if len(rs) < len(rs_all) else ""),
                              "detail": "returned %r, statuses imply %r (return_statuses=%r)" % (la.result, want, rs), "script": l.script})
     return {"problems": problems, "leaves": res["leaves"], "events": res["events"], "nodes": res["nodes"], "arr": narr}
+
+
+ABSORBING = ("threshold2", "SIR")      # every run of these models ends in a state where all rates are zero
+
+
+def float_probe(task):
+    """Seeded runs (real random source) with rates that are NOT exactly representable, unbounded horizon, on a model
+    whose runs all terminate: the recorded run must be a path of the TLC-emitted transition system that ends in one
+    of its terminal states (all rates zero) - rounding residue in the running total must not keep the clock alive."""
+    import random
+    import EoN
+    import networkx as nx
+    i, st0, unit, seeds = task["sc"], tuple(task["st0"]), task["unit"], task["seeds"]
+    scn = SCN[i]
+    graph = SG.get(i, {})
+    n = scn["n"]
+    nodes = list(range(1, n + 1))
+    G = nx.Graph()
+    G.add_nodes_from(nodes)
+    for u in nodes:
+        for v in nodes:
+            if u < v and scn["adj"][u - 1][v - 1]:
+                G.add_edge(u, v)
+    problems = []
+    runs = 0
+    events = 0
+    for seed in seeds:
+        rf, tc, gi = callbacks(scn, [], "list", unit=unit)
+        random.seed(seed)
+        runs += 1
+        try:
+            sim = EoN.Gillespie_complex_contagion(G, rf, tc, gi, {u: st0[u - 1] for u in nodes}, list(scn["statuses"]), tmin=0,
+                                                  tmax=float("inf"), parameters=(), return_full_data=True)
+        except Exception as ex:
+            problems.append({"kind": "exception:%s" % type(ex).__name__, "cls": scn["model"] + "|non-dyadic-rates,unbounded-horizon",
+                             "detail": "seed %d, rate unit %r: %r" % (seed, unit, ex)})
+            continue
+        obs = {"hist": {u: (list(sim.node_history(u)[0]), list(sim.node_history(u)[1])) for u in nodes}}
+        st = st0
+        bad = None
+        for (t, u, old, new) in observe.changes(obs, nodes):
+            events += 1
+            nxt = tuple(new if v == u else st[v - 1] for v in nodes)
+            if not any(ev[0] == (u, new) and ev[1] > 0 and ev[2] == nxt for ev in [((e[0][0], e[0][1]), e[1], e[2]) for e in graph.get(st, [])]):
+                bad = "event %r from state %r is not an enabled transition of the specification" % ((t, u, old, new), st)
+                break
+            st = nxt
+        if bad is None and graph.get(st, []):
+            bad = "the run stopped in state %r although %d transition(s) are enabled and the horizon is unbounded" % (st, len(graph.get(st, [])))
+        if bad:
+            problems.append({"kind": "run-not-a-terminated-path", "cls": scn["model"] + "|non-dyadic-rates,unbounded-horizon",
+                             "detail": "seed %d, rate unit %r: %s" % (seed, unit, bad)})
+    return {"problems": problems[:3], "runs": runs, "events": events}
